@@ -186,6 +186,33 @@ def run_residue(c):
             if r.get("violates"):
                 r["weights_tried"] = [str(x) for x in perm]
                 return r
+    # the residue the solver chose is not tied to the model's categories either: which rows share a cell decides how the
+    # addends are grouped, so the other category assignments within the same bounds are searched as well (plain
+    # one-axis dimensions only, explicit or inferred shape; bounded number of runs)
+    if isinstance(base_w, list) and all(len(per) == 1 and not tuple(per[0][0]) for per in c["cats"]):
+        import itertools as _it
+        N, D = c["N"], len(c["cats"])
+        ext = [int(x) for x in c["ishape"]] if c.get("ishape") is not None else [max(per[0][1]) + 1 for per in c["cats"]]
+        perms = list(_it.islice(_it.permutations(pool, len(base_w)), 0, 360, 17))
+        budget = 6000
+        for assign in _it.product(*[range(ext[d]) for d in range(D) for _ in range(N)]):
+            if c.get("ishape") is None and any(max(assign[d * N:(d + 1) * N]) != ext[d] - 1 for d in range(D)):
+                continue
+            for perm in perms:
+                if budget <= 0:
+                    break
+                budget -= 1
+                cc = copy.deepcopy(c)
+                cc.pop("residue")
+                cc["cats"] = [[[[], list(assign[d * N:(d + 1) * N])]] for d in range(D)]
+                cc["w"] = enc(list(perm))
+                cc["mask_only"] = True
+                tried += 1
+                r = run_plain(cc)
+                if r.get("violates"):
+                    r["weights_tried"] = [str(x) for x in perm]
+                    r["categories_tried"] = cc["cats"]
+                    return r
     for fac in (Fraction(1, 10), Fraction(3, 10), Fraction(7, 10), Fraction(1, 3), Fraction(1, 7), Fraction(11, 100), Fraction(1, 1000)):
         for bump in (0, 1, 2):
             cc = copy.deepcopy(c)
